@@ -307,7 +307,10 @@ def make_early_case(rng, wrap=False):
                 if w.net[n] and (len(w.net[n]) > 1 or rng.random() < 0.8):
                     k = rng.randrange(len(w.net[n])) if rng.random() < 0.5 else 0      # later datagrams may overtake
                     w.apply(["stash", n, k])
-                    w.apply(["deliver", n, k])
+                    if rng.random() < 0.25:
+                        w.apply(["drop", n, k])       # the first copy is lost, the network's copy arrives much later
+                    else:
+                        w.apply(["deliver", n, k])
                     moved = True
                     if neg and w.ep[n].channels and rng.random() < 0.8:
                         w.salt += 1
